@@ -358,3 +358,161 @@ def c_spacer_loop(repo):
             fn.body[i] = ast.While(s.test, s.body, [])
             return {'tokens': src(t)}
     raise NotApplicable('line-break test')
+
+
+# ---- reader / Buffer (C06, C20)
+
+def _first(root, pred):
+    for n in ast.walk(root):
+        if pred(n):
+            return n
+    raise NotApplicable('node')
+
+
+@control(['C06'], 'command-name-unguarded-next', ['R06.a'], 'read the command name with an unguarded next()')
+def c_cmd_next(repo):
+    t = parse(repo, 'reader')
+    fn = find_func(t, 'read_command')
+
+    def pred(n):
+        return isinstance(n, ast.IfExp) and isinstance(n.body, ast.Call) and isinstance(n.body.func, ast.Name) \
+            and n.body.func.id == 'next'
+    replace_expr(fn, pred, lambda n: n.body)
+    return {'reader': src(t)}
+
+
+@control(['C06'], 'bare-token-unguarded-next', ['R06.a'], 'delete the hasNext() conjunct before the bare-token next() in the required-argument reader')
+def c_bare_next(repo):
+    t = parse(repo, 'reader')
+    fn = find_func(t, 'read_arg_required')
+    # the elif whose body starts with `x = next(src)`
+    for n in ast.walk(fn):
+        if isinstance(n, ast.If) and n.body and isinstance(n.body[0], ast.Assign) and isinstance(n.body[0].value, ast.Call) \
+                and isinstance(n.body[0].value.func, ast.Name) and n.body[0].value.func.id == 'next':
+            drop_conjunct(n.test, lambda v: is_call_attr(v, 'hasNext'))
+            # the loop test also implies an item; drop it there too
+            for w in ast.walk(fn):
+                if isinstance(w, ast.While) and isinstance(w.test, ast.BoolOp):
+                    try:
+                        drop_conjunct(w, lambda v: is_call_attr(v, 'hasNext'))
+                    except NotApplicable:
+                        pass
+            return {'reader': src(t)}
+    raise NotApplicable('bare-token branch')
+
+
+@control(['C06', 'C12'], 'math-loop-unguarded-peek', ['R06.b'], 'delete the hasNext() conjunct of the math-environment loop')
+def c_math_unguarded(repo):
+    t = parse(repo, 'reader')
+    fn = find_func(t, 'read_math_env')
+    w = _first(fn, lambda n: isinstance(n, ast.While))
+    drop_conjunct(w, lambda v: is_call_attr(v, 'hasNext'))
+    return {'reader': src(t)}
+
+
+@control(['C06'], 'item-loop-no-progress', ['R06.c'], 'replace the expression read in the item loop by pass')
+def c_item_noprogress(repo):
+    t = parse(repo, 'reader')
+    fn = find_func(t, 'read_item')
+    w = _first(fn, lambda n: isinstance(n, ast.While))
+    for i, s_ in enumerate(w.body):
+        if isinstance(s_, ast.Expr) and isinstance(s_.value, ast.Call) and any(
+                isinstance(x, ast.Name) and x.id == 'read_expr' for x in ast.walk(s_)):
+            w.body[i] = ast.Pass()
+            return {'reader': src(t)}
+    raise NotApplicable('read_expr statement')
+
+
+@control(['C06'], 'raise-valueerror', ['R06.d'], 'raise ValueError instead of TypeError for a malformed argument')
+def c_raise_value(repo):
+    t = parse(repo, 'reader')
+    fn = find_func(t, 'read_arg')
+    r = _first(fn, lambda n: isinstance(n, ast.Raise) and isinstance(n.exc, ast.Call))
+    r.exc.func = ast.Name('ValueError', ast.Load())
+    return {'reader': src(t)}
+
+
+@control(['C06'], 'begin-without-assert', ['R06.e'], 'delete the non-emptiness assertion before args[0] in the expression reader')
+def c_begin_noassert(repo):
+    t = parse(repo, 'reader')
+    fn = find_func(t, 'read_expr')
+    remove_stmt(fn, lambda s_: isinstance(s_, ast.Assert) and 'args' in ast.unparse(s_.test))
+    return {'reader': src(t)}
+
+
+@control(['C06', 'C09', 'C12'], 'group-opener-unpinned', ['R06.g', 'R12.d'], 'call the group reader for every token kind (drop the GroupBegin guard)')
+def c_group_unpinned(repo):
+    t = parse(repo, 'reader')
+    fn = find_func(t, 'read_expr')
+    for i, s_ in enumerate(fn.body):
+        if isinstance(s_, ast.If) and 'GroupBegin' in ast.unparse(s_.test) and len(s_.body) == 1 \
+                and isinstance(s_.body[0], ast.Return):
+            s_.test = ast.Compare(ast.Attribute(ast.Name('c', ast.Load()), 'category', ast.Load()), [ast.NotEq()],
+                                  [ast.Attribute(ast.Name('TC', ast.Load()), 'Text', ast.Load())])
+            return {'reader': src(t)}
+    raise NotApplicable('GroupBegin guard')
+
+
+def _buffer_method(t, name):
+    return find_func(t, name, cls='Buffer')
+
+
+@control(['C20'], 'getitem-no-restore', ['R20.a'], 'delete the cursor restore in Buffer.__getitem__')
+def c_getitem_norestore(repo):
+    t = parse(repo, 'utils')
+    fn = _buffer_method(t, '__getitem__')
+    remove_stmt(fn, lambda s_: isinstance(s_, ast.Assign) and isinstance(s_.targets[0], ast.Attribute)
+                and isinstance(s_.value, ast.Name))
+    return {'utils': src(t)}
+
+
+@control(['C20'], 'backward-no-underflow-check', ['R20.b'], 'delete the underflow assertion of Buffer.backward')
+def c_backward_noassert(repo):
+    t = parse(repo, 'utils')
+    fn = _buffer_method(t, 'backward')
+    remove_stmt(fn, lambda s_: isinstance(s_, ast.Assert))
+    return {'utils': src(t)}
+
+
+@control(['C20'], 'forward-slice-shifted', ['R20.b'], 'shift the lower bound of the slice returned by Buffer.forward by one')
+def c_forward_shift(repo):
+    t = parse(repo, 'utils')
+    fn = _buffer_method(t, 'forward')
+    sl = _first(fn, lambda n: isinstance(n, ast.Slice) and n.lower is not None)
+    sl.lower = ast.BinOp(sl.lower, ast.Add(), ast.Constant(1))
+    return {'utils': src(t)}
+
+
+@control(['C20', 'C06'], 'peek-leaks-indexerror', ['R20.c'], 'narrow the exception handler of Buffer.peek to another type')
+def c_peek_leak(repo):
+    t = parse(repo, 'utils')
+    fn = _buffer_method(t, 'peek')
+    h = _first(fn, lambda n: isinstance(n, ast.ExceptHandler))
+    h.type = ast.Name('KeyError', ast.Load())
+    return {'utils': src(t)}
+
+
+@control(['C20', 'C06'], 'forward-until-unguarded-peek', ['R20.c', 'R06.b'], 'dereference the peek in Buffer.forward_until unconditionally')
+def c_forward_until_revert(repo):
+    t = parse(repo, 'utils')
+    fn = _buffer_method(t, 'forward_until')
+
+    def pred(n):
+        return isinstance(n, ast.IfExp) and isinstance(n.body, ast.Attribute) and n.body.attr == 'position'
+    replace_expr(fn, pred, lambda n: n.body)
+    return {'utils': src(t)}
+
+
+@control(['C20'], 'queue-cleared', ['R20.d'], 'clear the item queue in Buffer.forward')
+def c_queue_clear(repo):
+    t = parse(repo, 'utils')
+    fn = _buffer_method(t, 'forward')
+    q = None
+    for n in ast.walk(_buffer_method(t, '__next__')):
+        if isinstance(n, ast.Call) and isinstance(n.func, ast.Attribute) and n.func.attr == 'append':
+            q = n.func.value
+    if q is None:
+        raise NotApplicable('queue field')
+    fn.body.insert(1 if isinstance(fn.body[0], ast.Expr) else 0,
+                   ast.Expr(ast.Call(ast.Attribute(copy.deepcopy(q), 'clear', ast.Load()), [], [])))
+    return {'utils': src(t)}
